@@ -169,9 +169,9 @@ def _table_to_csv(table: Table, stream: TextIO, sep: str, na_rep: str) -> None:
         formatted_col_vals = (
             (
                 fs.format(x) if fs else str(x)
-                for x in _represent_col_elements(col.values, col.unit, na_rep)
+                for x in _represent_col_elements(col.values, col.unit, na_rep, first_column=(i == 0))
             )
-            for col, fs in zip(table, format_strings)
+            for i, (col, fs) in enumerate(zip(table, format_strings))
         )
         the_whole_thing = (
             f"**{table.name}*{sep}\n"
